@@ -65,6 +65,17 @@ def plan(tier, seed):
         "kind": "mcx", "mode": mode, "thr": thr, "eps": eps, "eigh": eigh,
         "P": P, "depth": depth, "maxf": maxf, "part": "engineA_" + mode,
         "profile": {"x64": x64}, "weight": 50})
+  # float32 pmap over 3 devices: the 4 statistics are padded to 6 work items,
+  # dealt out to the devices and gathered back before the accept/keep decision
+  for thr, eps, eigh, P in itertools.product(
+      [0.1] if tier == "quick" else [0.0, 0.1, 1e30], [1e-6, 0.0],
+      [False, True], [1, 2]):
+    tasks.append({
+        "name": "A/pmap3/thr%g/eps%g/%s/P%d/f32" % (
+            thr, eps, "eigh" if eigh else "newton", P),
+        "kind": "mcx", "mode": "pmap3", "thr": thr, "eps": eps, "eigh": eigh,
+        "P": P, "depth": depth, "maxf": maxf, "part": "engineA_pmap3",
+        "profile": {"x64": False, "devices": 3}, "weight": 80})
   # all statistics 1x1 (block size 1): the root routine has a shortcut for it
   for mode, thr, eps in itertools.product(["rep", "quant", "sharded"],
                                           [0.1, 1e30], [1e-6, 0.0]):
@@ -106,10 +117,11 @@ def run_mcx(task, acc):
              preconditioning_compute_steps=P, start_preconditioning_step=1,
              best_effort_shape_interpretation=False,
              block_size=task.get("block", 4), graft_type=3)
-  rmode = {"rep": "rep", "quant": "pmap", "sharded": "sharded"}[mode]
+  rmode = {"rep": "rep", "quant": "pmap", "sharded": "sharded",
+           "pmap3": "pmap"}[mode]
   if mode == "quant":
     cfg["best_effort_memory_usage_reduction"] = True
-  runner = ds.Runner(cfg, SHAPES, rmode)
+  runner = ds.Runner(cfg, SHAPES, rmode, ndev=3 if mode == "pmap3" else 1)
   alpha = ds.grad_trees(SHAPES, EVENTS, (0, task.get("block", 4)))
   pre = ["v", "m", "u"]
   case0 = {"mode": mode, "threshold": thr, "matrix_epsilon": eps,
@@ -127,7 +139,7 @@ def run_mcx(task, acc):
         out += ls["raw_preconditioners"]
       m = ls["metrics"]
       e = np.asarray(m.inverse_pth_root_errors)
-      if mode == "quant":
+      if rmode == "pmap":
         e = e[0]
       errs += list(np.asarray(e, np.float64).reshape(-1))
     return out, errs
